@@ -146,6 +146,13 @@ def _recon_traces(rep, quick, seed):
             p = tp.build(s, perturb=0.05, rng=rs_f(), val_ratio=ratio, val_mode=mode, preprocess_batch_size=pbs)
             p.reconstruct(num_iters=2, batch_size=bs, optimizer_params=json.loads(json.dumps(opt)))
             la = [float(x) for x in p.iter_losses]
+            if ci % 3 == 1:
+                # a refused request leaves the object as it was: the reset below must still replay the first run
+                for badrng in ("not-a-seed", np.random.RandomState(12)):
+                    try:
+                        p.rng = badrng
+                    except (TypeError, ValueError):
+                        pass
             p.reconstruct(num_iters=2, batch_size=bs, reset=True,
                           optimizer_params=json.loads(json.dumps(opt)))
             lb = [float(x) for x in p.iter_losses]
